@@ -365,7 +365,20 @@ class VLock(object):
             return
         me = s.me()
         if self.owner is not me:
-            raise RuntimeError("release of a lock the thread does not own")
+            if self.reentrant or not getattr(s, "unowned_release", False):
+                raise RuntimeError("release of a lock the thread does not own")
+            # opt-in (Sched.unowned_release = True): the semantics of the
+            # real threading.Lock, which has no owner - any thread may
+            # release a locked Lock, releasing an unlocked one raises
+            if self.owner is None:
+                raise RuntimeError("release unlocked lock")
+            self.foreign_releases = getattr(self, "foreign_releases", 0) + 1
+            self.owner.held -= 1
+            self.owner, self.count = None, 0
+            for t in self.waiters:
+                s.wake(t)
+            self.waiters = []
+            return
         self.count -= 1
         if self.count == 0:
             self.owner = None
